@@ -524,6 +524,9 @@ func (b *Built) outcome(o *Obj, key string, t TRef) (reflect.Value, error) {
 		return reflect.Value{}, graphql.NewSafeError("%s", oc.Msg)
 	case "wrapped":
 		return reflect.Value{}, graphql.WrapAsSafeError(errors.New("inner secret of "+oc.Msg), "%s", oc.Msg)
+	case "wrapsafe":
+		// an ordinary error that wraps a safe one: not itself safe for clients
+		return reflect.Value{}, fmt.Errorf("lookup of %s failed: %w", oc.Msg, graphql.NewSafeError("safe part of %s", oc.Msg))
 	case "panic":
 		panic(oc.Msg)
 	}
@@ -592,6 +595,14 @@ func (b *Built) goObj(o *Obj) reflect.Value {
 	}
 	b.mu.Unlock()
 	return p
+}
+
+// FailText is the text of the error a failing resolver of the given kind raises.
+func FailText(kind, msg string) string {
+	if kind == "wrapsafe" {
+		return fmt.Sprintf("lookup of %s failed: safe part of %s", msg, msg)
+	}
+	return msg
 }
 
 func ArgKey(name string, n int64) string { return fmt.Sprintf("%s(%d)", name, n) }
